@@ -29,6 +29,11 @@ PROBE_FLOORS = ["unquote", "_unquote_impl", "safely_quote", "upper_quoted", "_ge
 COMP_FN = {"auth": "safely_unquote_auth_item", "path": "safely_unquote_path", "query": "safely_unquote_query_item", "fragment": "safely_unquote_fragment"}
 
 
+CTX = [None]
+QUOTE_NAMES = {"safely_quote": "safely_quote", "upper_quoted": "upper_quoted", "safely_unquote_auth": "safely_unquote_auth_item", "safely_unquote_path": "safely_unquote_path",
+               "safely_unquote_query": "safely_unquote_query_item", "safely_unquote_fragment": "safely_unquote_fragment"}
+
+
 def get_fns():
     import ural.quote as q
 
@@ -46,6 +51,8 @@ def failures(fns, name, s):
         again = fn(out) if isinstance(out, str) else None
     except Exception as e:
         return ["exception:" + type(e).__name__], None
+    if CTX[0] is not None and isinstance(out, str):
+        CTX[0].remember("ural.quote:" + QUOTE_NAMES[name], [s], {}, out, cap=6000)
     if name == "safely_quote":
         return cq.check_quote(s, out, again), out
     if name == "upper_quoted":
@@ -103,6 +110,7 @@ def run(ctx):
     pr = Probes()
     qp = cq.QuoteProbes(ctx, pr)
     pr.start()
+    CTX[0] = ctx
     rng = ctx.rng
     try:
         def do(toks, cls):
